@@ -15,6 +15,7 @@ LEVEL_NOTE = "necessary conditions only"
 def run(ctx):
     from . import guardvocab
     guardvocab.G0(ctx, effects={'backtrack', 'branch'})
+    guardvocab.G1(ctx, effects={'backtrack', 'branch'})
     pathrules.B1(ctx)
     pathrules.X3(ctx)
     pathrules.B2(ctx)
